@@ -55,21 +55,23 @@ func VerifC12_View() {
 	u := vrtServe(base)
 	aid := vrtArchiveChoice(na)
 	from := vrtCmdInstant(h, "from")
+	until := vrtCmdInstant(h, "until") // before, at or after the clock
+	vrt.Assume(from <= until)
 	vrt.Assume(from <= now)
 	vrt.Reach("pre")
-	lh, lts, lerr := readWhisperFile(base, "item1/a+b&c.wsp", aid, from, now, now)
-	vrt.Known("C12-remote-nil-series", aid != ArchiveIDAll && na > 1)
-	rh, rts, rerr := readWhisperFile(u, "item1/a+b&c.wsp", aid, from, now, now)
-	vrt.KnownOff("C12-remote-nil-series")
+	lh, lts, lerr := readWhisperFile(base, "item1/a+b&c.wsp", aid, from, until, now)
 	vrt.Assert(lerr == nil, "C12.view local read succeeds")
-	// known finding: the handler dereferences an absent series (single-archive selection or a
-	// window outside an archive's retention); everything else must agree
+	// known finding: the handler dereferences an absent series (single-archive selection on a
+	// multi-archive file, or a window outside an archive's retention); everything else must agree
 	absent := false
 	for _, ts := range lts {
 		if ts == nil {
 			absent = true
 		}
 	}
+	vrt.Known("C12-remote-nil-series", absent)
+	rh, rts, rerr := readWhisperFile(u, "item1/a+b&c.wsp", aid, from, until, now)
+	vrt.KnownOff("C12-remote-nil-series")
 	if absent {
 		return
 	}
@@ -128,12 +130,39 @@ func VerifC12_Sum() {
 	base := filepath.Dir(filepath.Dir(sp))
 	u := vrtServe(base)
 	from := vrtCmdInstant(h, "from")
+	until := vrtCmdInstant(h, "until") // before, at or after the clock
+	vrt.Assume(from <= until)
 	vrt.Assume(from <= now)
 	vrt.Reach("pre")
-	_, lts, lerr := sumWhisperFile(base, "item1", "*.wsp", ArchiveIDAll, from, now, now)
-	_, rts, rerr := sumWhisperFile(u, "item1", "*.wsp", ArchiveIDAll, from, now, now)
+	_, lts, lerr := sumWhisperFile(base, "item1", "*.wsp", ArchiveIDAll, from, until, now)
 	vrt.Assert(lerr == nil, "C12.sum local sum succeeds")
+	absent := false
+	for _, ts := range lts {
+		if ts == nil {
+			absent = true
+		}
+	}
+	// known finding: for a window outside an archive's retention every file's series is absent
+	// and the local sum is an empty series with step 0, which the client-side decoder rejects
+	degenerate := false
+	for _, ts := range lts {
+		if ts != nil && ts.Step() == 0 {
+			degenerate = true
+		}
+	}
+	vrt.Known("C12-remote-nil-series", absent)
+	vrt.Known("C12-sum-absent-window", degenerate)
+	_, rts, rerr := sumWhisperFile(u, "item1", "*.wsp", ArchiveIDAll, from, until, now)
+	vrt.KnownOff("C12-remote-nil-series")
+	if absent {
+		return
+	}
 	vrt.Assert(rerr == nil, "C12.sum remote sum succeeds")
+	vrt.KnownOff("C12-sum-absent-window")
+	if degenerate {
+		return
+	}
+	vrt.Reach("compared")
 	vrt.Assert(len(rts) == len(lts), "C12.sum same number of series")
 	for i := range lts {
 		if i < len(rts) {
